@@ -340,7 +340,27 @@ def gen_pool(ctx, big):
     elif r < 0.3:
         op.rescale = rng.choice([0.5, 1.0, 2.0, 0.75, 3.0])
     op.rounding_mode = rng.choice([a.NpuRoundingMode.TFL, a.NpuRoundingMode.TRUNCATE, a.NpuRoundingMode.NATURAL])
+    if not pool_scale_accepted(op):
+        # OFM scale wider than 32 bits (rejected with a VelaError): requantise by 1 instead
+        op.rescale = None
+        op.ofm.quantization = a.NpuQuantization(scale_f32=op.ifm.quantization.scale_f32, zero_point=op.ofm.quantization.zero_point)
+        if not pool_scale_accepted(op):
+            op.activation = None
     return op
+
+
+def pool_scale_accepted(op):
+    """does generate_ofm_scaling_for_pooling accept the operation (only consulted when the global OFM scale is used)"""
+    a = api()
+    from ethosu.vela import register_command_stream_generator as g
+
+    if op.sub_op_type not in (a.NpuPoolingOp.AVERAGE, a.NpuPoolingOp.REDUCE_SUM) or sum(op.padding) != 0:
+        return True
+    try:
+        g.generate_ofm_scaling_for_pooling(g.CommandStreamEmitter(), op)
+        return True
+    except g.VelaError:
+        return False
 
 
 def gen_elementwise(ctx, big):
@@ -488,6 +508,7 @@ def recording():
     rec = Rec()
     o_wait, o_bd, o_abc, o_sc, o_c1 = (g.get_wait_dependency, g.calc_blockdep, g.get_arch_block_config,
                                         g.generate_scaling_for_elementwise, g.CommandStreamEmitter.cmd1_with_offset)
+    o_pool = g.generate_ofm_scaling_for_pooling
     scale_cmds = {cmd1.NPU_SET_OFM_SCALE: "ofm_scale", cmd1.NPU_SET_OPA_SCALE: "opa_scale", cmd1.NPU_SET_OPB_SCALE: "opb_scale"}
 
     def w_wait(arch, npu_op, *a, **k):
@@ -515,13 +536,28 @@ def recording():
             rec.cur()[scale_cmds[cmd]] = (int(offset), int(param))
         return o_c1(self, cmd, offset, param)
 
+    def w_pool(emit, pool_op):
+        try:
+            return o_pool(emit, pool_op)
+        except g.VelaError as e:
+            # the scale is rejected before it reaches the emitter: read the (scale, shift) the function had computed
+            tb = e.__traceback__
+            while tb is not None:
+                if tb.tb_frame.f_code.co_name == "generate_ofm_scaling_for_pooling" and "scale" in tb.tb_frame.f_locals:
+                    loc = tb.tb_frame.f_locals
+                    rec.cur()["ofm_scale"] = (int(loc["scale"]), int(loc.get("shift", 0)))
+                tb = tb.tb_next
+            raise
+
     g.get_wait_dependency, g.calc_blockdep, g.get_arch_block_config = w_wait, w_bd, w_abc
     g.generate_scaling_for_elementwise, g.CommandStreamEmitter.cmd1_with_offset = w_sc, w_c1
+    g.generate_ofm_scaling_for_pooling = w_pool
     try:
         yield rec
     finally:
         g.get_wait_dependency, g.calc_blockdep, g.get_arch_block_config = o_wait, o_bd, o_abc
         g.generate_scaling_for_elementwise, g.CommandStreamEmitter.cmd1_with_offset = o_sc, o_c1
+        g.generate_ofm_scaling_for_pooling = o_pool
 
 
 # ------------------------------------------------------------------------------------------------
